@@ -295,8 +295,12 @@ impl Property for C03 {
                 }
             }
             seq.extend(case.texts.iter().map(|t| render_pieces(&keys, t)));
+            // every other pass runs with the debug flag (lattice and path dumps on standard output, what the command
+            // line tool's -d does): the dumps walk the lattice of the CURRENT text on a tokenizer that held longer ones
+            let debug = case.subset % 8 == 1;
+            let _quiet = if debug { Some(crate::engine::quiet_stdout::enter()) } else { None };
             let r = guarded(|| {
-                let mut tok = StatefulTokenizer::new(&dict, sudachi::analysis::Mode::C);
+                let mut tok = StatefulTokenizer::create(&dict, debug, sudachi::analysis::Mode::C);
                 let mut ml = sudachi::prelude::MorphemeList::empty(&dict);
                 for (i, text) in seq.iter().enumerate() {
                     tok.set_mode(mode_of(i as u8));
@@ -311,7 +315,7 @@ impl Property for C03 {
                 Ok(())
             });
             match r {
-                Ok(Ok(())) => rep.class("reused tokenizer pass"),
+                Ok(Ok(())) => rep.class(if debug { "reused tokenizer pass with the debug flag" } else { "reused tokenizer pass" }),
                 Ok(Err((i, clause, detail))) => rep.fail(&format!("reused:{}", clause), format!("step {} of the reused-tokenizer pass, text {:?}: {}", i, crate::driver::truncate(&seq[i], 60), detail)),
                 Err(p) => rep.fail(&format!("reused-panic:{}", panic_site(&p)), format!("reused-tokenizer pass over {:?}: {}", seq.iter().map(|s| crate::driver::truncate(s, 20)).collect::<Vec<_>>(), p)),
             }
